@@ -67,7 +67,7 @@ ASSUMPTIONS = ["mc/refsem.py states miasm's constant evaluation (tied to it by C
                "-DNDEBUG, as python's sysconfig CFLAGS do: require() is compiled out); generated code with -O3 like a JIT block"]
 
 NATIVE = (8, 16, 32, 64)
-ODD_QUICK = (1, 2, 3, 4, 5, 7, 9, 13, 17, 24, 31, 33, 48, 63)
+ODD_QUICK = (1, 2, 3, 4, 7, 9, 13, 17, 33, 63)
 ODD_THOROUGH = tuple(w for w in range(1, 64) if w not in NATIVE)
 BN_QUICK = (65, 96, 127, 128, 129, 192, 255, 256)
 BN_THOROUGH = (65, 66, 80, 95, 96, 97, 127, 128, 129, 160, 191, 192, 193, 224, 255, 256)
@@ -75,7 +75,7 @@ RCL = (9, 17, 33)
 NESTED_QUICK = (8, 13, 32, 128)
 NESTED_THOROUGH = (3, 8, 13, 16, 32, 33, 64, 65, 128, 256)
 PROBE_ODD = (13,)
-NSHARDS_QUICK = 32
+NSHARDS_QUICK = 16
 NSHARDS_THOROUGH = 64
 MAX_PER_SIG = 2
 CASE_CPU_MS = 10           # CPU-time bound of one evaluation (the slowest helper, bignum_smod, needs < 0.1 ms)
@@ -127,9 +127,11 @@ def small(w):
     return sorted(s)
 
 
-def kconsts(w):
+def kconsts(w, quick):
     """constants used as the second operand inside an expression"""
     m = mask(w)
+    if quick:
+        return sorted({1, w & m, 1 << (w - 1), m})
     s = {0, 1, (w - 1) & m, w & m, (w + 1) & m, 1 << (w - 1), m}
     if w > 7:
         s.add(64 & m)
@@ -313,7 +315,7 @@ def depth1(w, quick):
     wc = wclass(w)
     out = []
     # literals
-    for v in vals(w):
+    for v in (small(w) if quick else vals(w)):
         out.append(F("int", wc, "any", w, K(v, w)))
     # binary operators: ids, constant second operand, constant first operand
     for op in binary_ops(w):
@@ -321,9 +323,9 @@ def depth1(w, quick):
             continue
         fam = fam_of(op)
         out.append(F(op, wc, fam, w, OP(op, a, b)))
-        for k in kconsts(w):
+        for k in kconsts(w, quick):
             out.append(F(op, wc, fam, w, OP(op, a, K(k, w))))
-        for k in small(w):
+        for k in (sorted({1 << (w - 1), mask(w)}) if quick else small(w)):
             out.append(F(op, wc, fam, w, OP(op, K(k, w), b)))
     if w == 16:
         for op in ("bcdadd", "bcdadd_cf"):
@@ -699,7 +701,9 @@ def gen_file(shadow, items):
 # ------------------------------------------------------------------ build + run
 
 RT_FLAGS = ["-O2", "-fno-strict-overflow", "-DNDEBUG", "-w", "-Dexit=c04_exit"]
-GEN_FLAGS = ["-O3", "-w", "-fno-diagnostics-color", "-fmax-errors=0"]
+GEN_FLAGS = ["-w", "-fno-diagnostics-color", "-fmax-errors=0"]
+GEN_OPT = {"quick": "-O0", "thorough": "-O3"}      # thorough compiles the generated code like a JIT block (cc -O3)
+_opt = ["-O0"]
 
 
 def runtime_objects(shadow):
@@ -767,7 +771,7 @@ def compile_items(shadow, rt_objs, items, workdir, name):
         exe = os.path.join(workdir, "%s_%d.exe" % (name, attempt))
         with open(cfile, "w") as fd:
             fd.write(gen_file(shadow, items))
-        cmd = ["gcc"] + GEN_FLAGS + native.include_dirs() + [cfile] + rt_objs + ["-lm", "-o", exe]
+        cmd = ["gcc"] + _opt + GEN_FLAGS + native.include_dirs() + [cfile] + rt_objs + ["-lm", "-o", exe]
         p = subprocess.run(cmd, stdout=subprocess.PIPE, stderr=subprocess.STDOUT, env=env)
         if p.returncode == 0:
             return [exe], items, rejected
@@ -905,7 +909,14 @@ def evaluate(funcs, shadow, rt_objs, workdir, name):
     items = []
     meta = {}
     import time
+    import resource
+
+    def cpu():
+        c = resource.getrusage(resource.RUSAGE_CHILDREN)
+        m = resource.getrusage(resource.RUSAGE_SELF)
+        return c.ru_utime + c.ru_stime, m.ru_utime + m.ru_stime
     t0 = time.time()
+    c0 = cpu()
     for k, f in enumerate(funcs):
         expr, ctext, err = translate(f)
         op_key = "%s|%s" % (f["tag"], f["wc"])
@@ -935,10 +946,13 @@ def evaluate(funcs, shadow, rt_objs, workdir, name):
         items.append((k, f, ctext, skip if any(skip) else None))
 
     t1 = time.time()
+    c1 = cpu()
     exes, kept, rejected = compile_items(shadow, rt_objs, items, workdir, name)
     t2 = time.time()
+    c2 = cpu()
 
     def add(f, sig, what, case, inner):
+        case = dict(case, opt=_opt[0])
         vio.append({"v": violation(sig, what, case), "inner": spec_str(inner) if inner else None, "key": f["key"],
                     "probe": f["probe"]})
 
@@ -959,7 +973,10 @@ def evaluate(funcs, shadow, rt_objs, workdir, name):
             raise RuntimeError("harness %s: rc=%s completed=%s stdout=%d bytes unattributed" % (exe, rc, ok, so_size))
 
     t3 = time.time()
-    stats["seconds"] = {"translate+reference": t1 - t0, "compile": t2 - t1, "run": t3 - t2}
+    c3 = cpu()
+    stats["seconds"] = {"translate+reference": t1 - t0, "compile": t2 - t1, "run": t3 - t2,
+                        "cpu_translate+reference": c1[1] - c0[1], "cpu_compile": c2[0] - c1[0], "cpu_run": c3[0] - c2[0],
+                        "cpu_parse": c3[1] - c2[1]}
     for k, f, ctext, skip in kept:
         f, expr, ids, tuples, exp, ctext = meta[k]
         res = results.get(k)
@@ -1040,7 +1057,8 @@ def evaluate(funcs, shadow, rt_objs, workdir, name):
 
 
 def _worker(shard):
-    funcs, shadow, rt_objs, name = shard
+    funcs, shadow, rt_objs, name, opt = shard
+    _opt[0] = opt
     workdir = tempfile.mkdtemp(prefix="c04_")
     try:
         vio, stats = evaluate(funcs, shadow, rt_objs, workdir, name)
@@ -1062,7 +1080,8 @@ def run(ctx):
     quick = ctx.quick
     funcs = lattice(quick)
     n = NSHARDS_QUICK if quick else NSHARDS_THOROUGH
-    shards = [(funcs[i::n], shadow, rt, "s%d" % i) for i in range(n)]
+    opt = GEN_OPT["quick" if quick else "thorough"]
+    shards = [(funcs[i::n], shadow, rt, "s%d" % i, opt) for i in range(n)]
     res = ctx.pmap(_worker, shards)
 
     tot = {"functions": 0, "evaluations": 0, "nontrivial": 0, "undefined_skipped": 0, "compile_rejected": 0, "not_run_after_timeouts": 0, "not_run_after_crash": 0, "signals": 0,
@@ -1074,7 +1093,8 @@ def run(ctx):
     faulty = set()
     samples = []
     allv = []
-    secs = {"translate+reference": [], "compile": [], "run": []}
+    secs = {"translate+reference": [], "compile": [], "run": [], "cpu_translate+reference": [], "cpu_compile": [], "cpu_run": [],
+            "cpu_parse": []}
     for vio, st in res:
         for key in secs:
             secs[key].append(round(st["seconds"][key], 1))
@@ -1131,13 +1151,14 @@ def run(ctx):
         "bounds": {"native": list(NATIVE), "odd": list(ODD_QUICK if quick else ODD_THOROUGH),
                    "bn": list(BN_QUICK if quick else BN_THOROUGH), "nested": list(NESTED_QUICK if quick else NESTED_THOROUGH),
                    "rcl": list(RCL), "probe_odd": list(PROBE_ODD), "values": "all for w<=4, refsem.boundary(w) above; "
-                   "reduced 7-value set per operand for 3-operand shapes", "shards": n},
+                   "reduced 7-value set per operand for 3-operand shapes", "shards": n, "generated_code_optimisation": opt},
     })
     return cov
 
 
 def replay(case):
     shadow, rt = _setup()
+    _opt[0] = str(case.get("opt", "-O0"))
     spec = case["spec"]
     ids = spec_ids(spec)
     if case.get("vals") is None:
